@@ -51,6 +51,8 @@ type catchEvent struct {
 	// place of the one that left is owed to that token
 	persistent bool
 	owed       int
+	// listening, when set, is closed as soon as the next token listens here
+	listening atomic.Pointer[chan struct{}]
 	// running is set once the node's goroutine drains mch; until then nobody
 	// listens and events are dropped instead of piling up in the inbox
 	running atomic.Bool
@@ -101,6 +103,9 @@ func (evt *catchEvent) run(ctx context.Context, sender tracing.ISenderHandle) {
 					evt.activated.Store(true)
 					evt.tracer.Send(ActiveListeningTrace{Node: evt.element})
 				}
+				if listening := evt.listening.Swap(nil); listening != nil {
+					close(*listening)
+				}
 				if evt.owed > 0 {
 					evt.owed--
 					m.response <- flowAction{sequenceFlows: allSequenceFlows(&evt.outgoing)}
@@ -108,6 +113,9 @@ func (evt *catchEvent) run(ctx context.Context, sender tracing.ISenderHandle) {
 				}
 				evt.awaitingActions = append(evt.awaitingActions, m.response)
 			case resetMessage:
+				for _, actionChan := range evt.awaitingActions {
+					actionChan <- noAction{}
+				}
 				evt.awaitingActions = make([]chan IAction, 0)
 				evt.owed = 0
 				evt.activated.Store(false)
